@@ -26,7 +26,7 @@ def run(tier, seed, replay=None):
         vectors = os.path.join(fr.dir, "framer_vectors.ndjson")
         nvec = sum(1 for _ in open(vectors))
         res = dplib.run_vdp(pid, wd, ["c02", "-tier", tier, "-seed", str(seed), "-framer-vectors", vectors, "-trace", trace,
-                                      "-trace-limit", "9000" if quick else "60000"], timeout=3000)
+                                      "-trace-limit", "12000" if quick else "60000"], timeout=3000)
         if res["counters"].get("framer_vectors_direct", 0) != nvec and not res["violations"]:
             raise vlib.Inconclusive("harness replayed %s of %d framer vectors: %s" % (res["counters"].get("framer_vectors_direct"), nvec, res.get("inconclusive")))
         tv = dplib.validate_trace(pid, wd, [trace], allow_empty=bool(res["violations"]))
@@ -42,7 +42,7 @@ def run(tier, seed, replay=None):
     (fr, nvec, res, tv), rs, wit = dplib.parallel(impl, design, wits)
     dplib.apply(v, res, tv)
     c = res["counters"]
-    for k in ("scenarios_memnet", "scenarios_tcp", "scenarios_rechunk-tlc", "scenarios_rechunk-random", "relay_header_splits", "relay_body_splits", "relay_coalesced"):
+    for k in ("scenarios_memnet", "scenarios_burst", "scenarios_tcp", "scenarios_rechunk-tlc", "scenarios_rechunk-random", "relay_header_splits", "relay_body_splits", "relay_coalesced"):
         if not c.get(k) and not v.violations:
             raise vlib.Inconclusive("scenario class never exercised: %s" % k)
     rs = rs + [("Framer.tla", fcfg, fr)]
